@@ -4,12 +4,20 @@ package main
 //
 // Constants are located by function name and syntactic ROLE (never by the name of a local variable or
 // parameter), so that reformatting, renaming locals or reordering independent statements keeps the output
-// unchanged. A constant that cannot be located is emitted as a placeholder together with `found_<name> := false`
-// (never a guess); `allFound` is the conjunction. Structural fingerprints are emitted for information only: no
-// theorem depends on them.
+// unchanged. An item whose place in the source is not recognised (a refactored function) is emitted with its DEFAULT —
+// the hand-written value the model used before regeneration — together with `found_<name> := false`; nothing that
+// Props/ needs depends on the `found_` flags, so an unrecognised shape leaves the model as it was and the
+// correspondence alone ties it to the code. Where the source contains two textual copies of a constant that must
+// agree (the two `M*s` of the ninther, the two `child+1` of siftDown, the start `a+G` and the offsets `i-G` of the
+// Shell pass) both are emitted, each used by the model in its own place, so that a disagreement is a recognised
+// shape that the proofs see. Structural fingerprints are emitted for information only: no theorem depends on them.
+// The items that were not regenerated are listed in `Gen.Sort.notRegenerated` and in `<facts dir>/facts_c17.json`
+// under the key `not_regenerated:SortConsts.lean`.
 
 import (
+	"encoding/json"
 	"fmt"
+	"os"
 	"go/ast"
 	"go/token"
 	"path/filepath"
@@ -131,16 +139,27 @@ type c17Gen struct {
 	consts []c17Const
 }
 
+// c17Defaults: the values the hand-written model used before regeneration.
+var c17Defaults = map[string]int64{
+	"qsSmall": 12, "qsMin": 1, "shellGap": 6, "shellGapIdx": 6, "pivotShift": 1, "nintherMin": 40, "nintherDiv": 8,
+	"nintherMul": 2, "nintherMul2": 2, "protectMin": 5, "dupsDiv": 4, "dupsMin": 1, "heapMul": 2, "heapAdd": 1,
+	"heapSib": 1, "heapSibIdx": 1, "heapBuildSub": 1, "heapBuildDiv": 2, "mdShift": 1, "mdMul": 2,
+}
+
 func (g *c17Gen) put(name, typ, doc string, v int64, ok bool) {
-	val := "0"
-	if ok {
-		val = strconv.FormatInt(v, 10)
-		if v < 0 {
-			val = "(" + val + ")"
-		}
+	def, has := c17Defaults[name]
+	if !has {
+		die("c17: no default for %s", name)
 	}
 	if ok && typ == "Nat" && v < 0 {
-		ok, val = false, "0"
+		ok = false
+	}
+	if !ok {
+		v = def
+	}
+	val := strconv.FormatInt(v, 10)
+	if v < 0 {
+		val = "(" + val + ")"
 	}
 	g.consts = append(g.consts, c17Const{name, typ, val, doc, ok})
 }
@@ -149,8 +168,8 @@ func (g *c17Gen) intSort(p *pkgInfo) {
 	// ---- quickSort ----
 	{
 		fd := c17Func(p, "", "quickSort")
-		var t, k, gap int64
-		var okT, okK, okG bool
+		var t, k, gap, gapIdx int64
+		var okT, okK, okG, okGI bool
 		if fd != nil {
 			// the loop `for <len> > T {`: first for statement whose condition is `X > lit`
 			loop := c17First(fd.Body, func(n ast.Node) bool {
@@ -178,9 +197,14 @@ func (g *c17Gen) intSort(p *pkgInfo) {
 						if as, ok := sh.(*ast.ForStmt).Init.(*ast.AssignStmt); ok && len(as.Rhs) == 1 {
 							if _, v, ok := c17Bin(as.Rhs[0], token.ADD); ok {
 								gap, okG = v, true
+								first := true
 								for _, ix := range c17All(sh.(*ast.ForStmt).Body, func(n ast.Node) bool { _, ok := n.(*ast.IndexExpr); return ok }) {
-									if _, v2, ok := c17Bin(ix.(*ast.IndexExpr).Index, token.SUB); ok && v2 != gap {
-										okG = false
+									if _, v2, ok := c17Bin(ix.(*ast.IndexExpr).Index, token.SUB); ok {
+										if first {
+											gapIdx, okGI, first = v2, true, false
+										} else if v2 != gapIdx {
+											okGI = false // the offsets disagree among themselves: not the shape `if data[i] < data[i-G] { swap }`
+										}
 									}
 								}
 							}
@@ -192,12 +216,13 @@ func (g *c17Gen) intSort(p *pkgInfo) {
 		}
 		g.put("qsSmall", "Int", "quickSort: `for b-a > T` — ranges longer than T are partitioned", t, okT)
 		g.put("qsMin", "Int", "quickSort: `if b-a > K` — ranges longer than K get the Shell pass and insertionSort", k, okK)
-		g.put("shellGap", "Int", "quickSort: gap of the single Shell-sort pass (`i := a + G`, `data[i-G]`)", gap, okG)
+		g.put("shellGap", "Int", "quickSort: start of the single Shell-sort pass, `i := a + G`", gap, okG)
+		g.put("shellGapIdx", "Int", "quickSort: the offset of the Shell-sort pass, `data[i-G]` (all copies agree)", gapIdx, okGI)
 	}
 	// ---- doPivot ----
 	{
 		fd := c17Func(p, "", "doPivot")
-		var sh, nmin, ndiv, nmul, pmin, ddiv, dmin int64
+		var sh, nmin, ndiv, nmul, nmul2, pmin, ddiv, dmin int64
 		var okSh, okNmin, okNdiv, okNmul, okPmin, okDdiv, okDmin bool
 		if fd != nil {
 			if n := c17First(fd.Body, func(n ast.Node) bool { _, _, ok := c17Bin2(n, token.SHR); return ok }); n != nil {
@@ -222,17 +247,20 @@ func (g *c17Gen) intSort(p *pkgInfo) {
 								_, r := c17Lit(b.Y)
 								return l != r
 							})
-							for i, m := range muls {
-								b := m.(*ast.BinaryExpr)
-								v, ok := c17Lit(b.X)
-								if !ok {
-									v, _ = c17Lit(b.Y)
+							if len(muls) == 2 { // `lo+M*s` and `hi-1-M*s`
+								for i, m := range muls {
+									b := m.(*ast.BinaryExpr)
+									v, ok := c17Lit(b.X)
+									if !ok {
+										v, _ = c17Lit(b.Y)
+									}
+									if i == 0 {
+										nmul = v
+									} else {
+										nmul2 = v
+									}
 								}
-								if i == 0 {
-									nmul, okNmul = v, true
-								} else if v != nmul {
-									okNmul = false
-								}
+								okNmul = true
 							}
 							continue
 						}
@@ -268,7 +296,8 @@ func (g *c17Gen) intSort(p *pkgInfo) {
 		g.put("pivotShift", "Nat", "doPivot: `m := int(uint(lo+hi) >> S)`", sh, okSh)
 		g.put("nintherMin", "Int", "doPivot: `if hi-lo > N` — Tukey's ninther for ranges longer than N", nmin, okNmin)
 		g.put("nintherDiv", "Int", "doPivot: `s := (hi - lo) / D`", ndiv, okNdiv)
-		g.put("nintherMul", "Int", "doPivot: the factor M of `lo+M*s`, `hi-1-M*s`", nmul, okNmul)
+		g.put("nintherMul", "Int", "doPivot: the factor M of `lo+M*s`", nmul, okNmul)
+		g.put("nintherMul2", "Int", "doPivot: the factor M of `hi-1-M*s`", nmul2, okNmul)
 		g.put("protectMin", "Int", "doPivot: `protect := hi-c < P`", pmin, okPmin)
 		g.put("dupsDiv", "Int", "doPivot: `hi-c < (hi-lo)/Q`", ddiv, okDdiv)
 		g.put("dupsMin", "Nat", "doPivot: `protect = dups > K`", dmin, okDmin)
@@ -276,8 +305,8 @@ func (g *c17Gen) intSort(p *pkgInfo) {
 	// ---- siftDown ----
 	{
 		fd := c17Func(p, "", "siftDown")
-		var mul, add, sib int64
-		var okM, okS bool
+		var mul, add, sib, sibIdx int64
+		var okM, okS, okSI bool
 		if fd != nil {
 			// `child := M*root + A`
 			if n := c17First(fd.Body, func(n ast.Node) bool {
@@ -313,11 +342,11 @@ func (g *c17Gen) intSort(p *pkgInfo) {
 				if l, ok := c17Unparen(b.X).(*ast.BinaryExpr); ok && l.Op == token.LSS {
 					if _, v, ok := c17Bin(l.X, token.ADD); ok {
 						sib, okS = v, true
-						// the second operand of the element comparison must use the same offset
+						// the offset in the second operand of the element comparison
 						if r, ok := c17Unparen(b.Y).(*ast.BinaryExpr); ok {
 							if ix, ok := c17Unparen(r.Y).(*ast.IndexExpr); ok {
-								if _, v2, ok := c17Bin(ix.Index, token.ADD); !ok || v2 != sib {
-									okS = false
+								if _, v2, ok := c17Bin(ix.Index, token.ADD); ok {
+									sibIdx, okSI = v2, true
 								}
 							}
 						}
@@ -327,7 +356,8 @@ func (g *c17Gen) intSort(p *pkgInfo) {
 		}
 		g.put("heapMul", "Int", "siftDown: `child := M*root + A`", mul, okM)
 		g.put("heapAdd", "Int", "siftDown: `child := M*root + A`", add, okM)
-		g.put("heapSib", "Int", "siftDown: the sibling `child+B`", sib, okS)
+		g.put("heapSib", "Int", "siftDown: the sibling test `child+B < hi`", sib, okS)
+		g.put("heapSibIdx", "Int", "siftDown: the sibling element `data[first+child+B]`", sibIdx, okSI)
 	}
 	// ---- heapSort ----
 	{
@@ -371,10 +401,11 @@ func (g *c17Gen) intSort(p *pkgInfo) {
 			}); n != nil {
 				sh, okS = c17Lit(n.(*ast.AssignStmt).Rhs[0])
 			}
+			// only together with the shift loop: `return depth * F`
 			if n := c17First(fd.Body, func(n ast.Node) bool {
 				rs, ok := n.(*ast.ReturnStmt)
 				return ok && len(rs.Results) == 1
-			}); n != nil {
+			}); n != nil && okS {
 				if b, ok := c17Unparen(n.(*ast.ReturnStmt).Results[0]).(*ast.BinaryExpr); ok && b.Op == token.MUL {
 					if v, ok := c17Lit(b.Y); ok {
 						mul, okM = v, true
@@ -403,12 +434,12 @@ func c17Bin2(n ast.Node, op token.Token) (ast.Expr, int64, bool) {
 	return c17Bin(e, op)
 }
 
-// c17Lean translates a Go boolean / integer expression over the parameters of a function into Lean
-// (Bool for comparisons and && || !, Int for arithmetic, Go's `/` as Int.tdiv).
-func c17Lean(e ast.Expr, names map[string]string) (string, bool) {
+// c17LeanInt translates a Go integer expression over the parameters of a function into a Lean `Int` term
+// (Go's `/` as Int.tdiv).
+func c17LeanInt(e ast.Expr, names map[string]string) (string, bool) {
 	switch x := e.(type) {
 	case *ast.ParenExpr:
-		s, ok := c17Lean(x.X, names)
+		s, ok := c17LeanInt(x.X, names)
 		return "(" + s + ")", ok
 	case *ast.Ident:
 		s, ok := names[x.Name]
@@ -418,34 +449,15 @@ func c17Lean(e ast.Expr, names map[string]string) (string, bool) {
 			return x.Value, true
 		}
 	case *ast.UnaryExpr:
-		s, ok := c17Lean(x.X, names)
-		switch x.Op {
-		case token.SUB:
+		if x.Op == token.SUB {
+			s, ok := c17LeanInt(x.X, names)
 			return "(-" + s + ")", ok
-		case token.NOT:
-			return "(!" + s + ")", ok
 		}
 	case *ast.BinaryExpr:
-		l, ok1 := c17Lean(x.X, names)
-		r, ok2 := c17Lean(x.Y, names)
+		l, ok1 := c17LeanInt(x.X, names)
+		r, ok2 := c17LeanInt(x.Y, names)
 		ok := ok1 && ok2
 		switch x.Op {
-		case token.LAND:
-			return "(" + l + " && " + r + ")", ok
-		case token.LOR:
-			return "(" + l + " || " + r + ")", ok
-		case token.LSS:
-			return "decide (" + l + " < " + r + ")", ok
-		case token.GTR:
-			return "decide (" + l + " > " + r + ")", ok
-		case token.LEQ:
-			return "decide (" + l + " ≤ " + r + ")", ok
-		case token.GEQ:
-			return "decide (" + l + " ≥ " + r + ")", ok
-		case token.EQL:
-			return "decide (" + l + " = " + r + ")", ok
-		case token.NEQ:
-			return "decide (" + l + " ≠ " + r + ")", ok
 		case token.ADD:
 			return "(" + l + " + " + r + ")", ok
 		case token.SUB:
@@ -456,14 +468,51 @@ func c17Lean(e ast.Expr, names map[string]string) (string, bool) {
 			return "(Int.tdiv " + l + " " + r + ")", ok
 		}
 	}
+	return "0", false
+}
+
+// c17LeanBool translates a Go condition built from comparisons of integer expressions with && || ! into a Lean
+// `Bool` term. Anything else (comparisons of booleans, calls, …) is not recognised.
+func c17LeanBool(e ast.Expr, names map[string]string) (string, bool) {
+	switch x := e.(type) {
+	case *ast.ParenExpr:
+		s, ok := c17LeanBool(x.X, names)
+		return "(" + s + ")", ok
+	case *ast.UnaryExpr:
+		if x.Op == token.NOT {
+			s, ok := c17LeanBool(x.X, names)
+			return "(!" + s + ")", ok
+		}
+	case *ast.BinaryExpr:
+		switch x.Op {
+		case token.LAND, token.LOR:
+			l, ok1 := c17LeanBool(x.X, names)
+			r, ok2 := c17LeanBool(x.Y, names)
+			op := " && "
+			if x.Op == token.LOR {
+				op = " || "
+			}
+			return "(" + l + op + r + ")", ok1 && ok2
+		case token.LSS, token.GTR, token.LEQ, token.GEQ, token.EQL, token.NEQ:
+			l, ok1 := c17LeanInt(x.X, names)
+			r, ok2 := c17LeanInt(x.Y, names)
+			op := map[token.Token]string{token.LSS: "<", token.GTR: ">", token.LEQ: "≤", token.GEQ: "≥", token.EQL: "=", token.NEQ: "≠"}[x.Op]
+			return "decide (" + l + " " + op + " " + r + ")", ok1 && ok2
+		}
+	}
 	return "false", false
 }
 
-// rangeRejects: the condition of the first `if … { panic(…) }` of Range, over its three parameters in order.
+// the rejection test of the hand-written model (the documented one)
+const c17RangeDefault = "(decide (e < start) && decide (step > 0)) || (decide (e > start) && decide (step < 0)) || (decide (e ≠ start) && decide (step = 0))"
+
+// rangeRejects: recognised when the FIRST statement of Range is `if <cond> { panic(…) }` (no else) with a condition
+// over its three parameters; the model tests it first, as the source does. Any other arrangement (the test moved
+// behind the `end == start` case, a helper, …) is not recognised: the hand-written condition is emitted.
 func c17RangeRejects(p *pkgInfo) (string, bool) {
 	fd := c17Func(p, "", "Range")
-	if fd == nil {
-		return "false", false
+	if fd == nil || len(fd.Body.List) == 0 {
+		return c17RangeDefault, false
 	}
 	var params []string
 	for _, f := range fd.Type.Params.List {
@@ -472,28 +521,28 @@ func c17RangeRejects(p *pkgInfo) (string, bool) {
 		}
 	}
 	if len(params) != 3 {
-		return "false", false
+		return c17RangeDefault, false
 	}
 	names := map[string]string{params[0]: "start", params[1]: "e", params[2]: "step"}
-	for _, st := range fd.Body.List {
-		is, ok := st.(*ast.IfStmt)
-		if !ok {
-			continue
-		}
-		panics := c17First(is.Body, func(n ast.Node) bool {
-			c, ok := n.(*ast.CallExpr)
-			if !ok {
-				return false
-			}
-			id, ok := c.Fun.(*ast.Ident)
-			return ok && id.Name == "panic"
-		}) != nil
-		if !panics {
-			continue
-		}
-		return c17Lean(is.Cond, names)
+	is, ok := fd.Body.List[0].(*ast.IfStmt)
+	if !ok || is.Init != nil || is.Else != nil || len(is.Body.List) != 1 {
+		return c17RangeDefault, false
 	}
-	return "false", false
+	es, ok := is.Body.List[0].(*ast.ExprStmt)
+	if !ok {
+		return c17RangeDefault, false
+	}
+	call, ok := es.X.(*ast.CallExpr)
+	if !ok {
+		return c17RangeDefault, false
+	}
+	if id, ok := call.Fun.(*ast.Ident); !ok || id.Name != "panic" {
+		return c17RangeDefault, false
+	}
+	if s, ok := c17LeanBool(is.Cond, names); ok {
+		return s, true
+	}
+	return c17RangeDefault, false
 }
 
 // ---- fingerprints (information only) ----
@@ -592,17 +641,30 @@ func init() {
 		rej, rejOk := c17RangeRejects(sp)
 
 		var b strings.Builder
-		b.WriteString("/-! GENERATED by /verif/extract (extract/c17.go) from /repo/ints/int_sort.go and /repo/sortints/sorted_ints.go\non every run — do not edit.  `found_<name> = false` marks a constant whose place in the source was not recognised\n(the value is then a placeholder, never a guess). -/\n")
+		b.WriteString("/-! GENERATED by /verif/extract (extract/c17.go) from /repo/ints/int_sort.go and /repo/sortints/sorted_ints.go\non every run — do not edit.  `found_<name> = false` marks an item whose place in the source was not recognised: its\nvalue is then the DEFAULT (the hand-written value of the model before regeneration).  Information only — nothing is\nproved about the `found_` flags. -/\n")
 		b.WriteString("namespace Gen.Sort\n\n")
-		all := []string{}
+		missing := []string{}
 		for _, c := range g.consts {
 			fmt.Fprintf(&b, "/-- %s -/\ndef %s : %s := %s\ndef found_%s : Bool := %v\n\n", c.doc, c.name, c.typ, c.val, c.name, c.found)
-			all = append(all, "found_"+c.name)
+			if !c.found {
+				missing = append(missing, c.name)
+			}
 		}
-		b.WriteString("/-- sortints.Range: the condition of `if … { panic(\"Infinite set\") }` over the parameters (start, end, step) -/\n")
+		b.WriteString("/-- sortints.Range: the condition of the leading `if … { panic(\"Infinite set\") }` over the parameters (start, end, step) -/\n")
 		fmt.Fprintf(&b, "def rangeRejects (start e step : Int) : Bool :=\n  %s\ndef found_rangeRejects : Bool := %v\n\n", rej, rejOk)
-		all = append(all, "found_rangeRejects")
-		b.WriteString("def allFound : Bool := " + strings.Join(all, " && ") + "\n\n")
+		if !rejOk {
+			missing = append(missing, "rangeRejects")
+		}
+		q := make([]string, len(missing))
+		for i, m := range missing {
+			q[i] = strconv.Quote(m)
+		}
+		b.WriteString("/-- the items emitted with their default because their place in the source was not recognised -/\ndef notRegenerated : List String := [" + strings.Join(q, ", ") + "]\n\n")
+		if len(os.Args) >= 4 {
+			fb, _ := json.MarshalIndent(map[string]interface{}{"not_regenerated:SortConsts.lean": missing}, "", " ")
+			os.MkdirAll(filepath.Dir(os.Args[3]), 0o755)
+			os.WriteFile(filepath.Join(filepath.Dir(os.Args[3]), "facts_c17.json"), fb, 0o644)
+		}
 		b.WriteString("/-- structural fingerprint of a function (information only — nothing is proved about it) -/\nstructure Fp where\n  calls : List String\n  ifs : Nat\n  fors : Nat\n  returns : Nat\n  indexes : Nat\n  slices : Nat\n  swaps : Nat\n  lits : List Nat\n  deriving Repr\n\n")
 		fps := append(c17Fingerprints(ip, "ints"), c17Fingerprints(sp, "sortints")...)
 		b.WriteString("def fingerprints : List (String × Fp) := [\n  " + strings.Join(fps, ",\n  ") + "]\n\n")
